@@ -202,6 +202,9 @@ Proof.
                                        | None => WCursor 0 0 0 0 end] else []) = false).
   { destruct (_ && _ && _); [|reflexivity]. destruct (sCursor st) as [[[[? ?] cw] ch]|]; [destruct (_ || _)|]; reflexivity. }
   rewrite H1. cbn [orb]. unfold copy_wrects. rewrite EUC.
+  assert (Ef : fst (count_fix [] U3c) = []).
+  { unfold count_fix. cbv zeta. repeat match goal with |- context [if ?b then _ else _] => destruct b end; reflexivity. }
+  rewrite Ef.
   assert (Ei : rgn_iter (cDX c >? 0) (cDY c >? 0) (@nil (span xspans)) = @nil rect)
     by (destruct (cDX c >? 0); destruct (cDY c >? 0); reflexivity).
   rewrite Ei.
